@@ -171,6 +171,7 @@ impl Prop for Contradictions {
             };
             next = slot + 1;
             funcs.push(Func {
+                more: vec![],
                 sty: 0,
                 vis: true,
                 name: format!("vf{k}"),
